@@ -92,6 +92,9 @@ func TestZZVerifEmit(t *testing.T) {
 	}
 	// constant right operand (exercises the constant-folding shortcuts)
 	consts := []int64{0, 1, -1, 2, 7, 8, 31, 32, 63, 64, 65, 255, 256}
+	if os.Getenv("VERIF_TIER") == "thorough" {
+		consts = append(consts, 3, 5, 9, 15, 16, 17, 33, 100, 127, 128, 129, 1000, 32767, 32768, 65535, 65536, -2, -7, -128, -129, 1<<31-1, 1<<31, 1<<32, 1<<62)
+	}
 	for _, op := range []token.Token{token.QUO, token.REM, token.SHL, token.SHR} {
 		for _, k := range zzIntKinds {
 			for _, cv := range consts {
